@@ -389,7 +389,7 @@ func (c c01Case) replay() map[string]interface{} {
 		"fault": c.RS.Fault, "eof_with_data": c.RS.Ewd, "origin": c.Origin, "note": c.Note}
 }
 
-var entryName = map[string]string{"D": "Decode", "C": "DecodeChained", "I": "CheckIntegrity(false)", "J": "CheckIntegrity(true)", "H": "DecodeHeader", "F": "DecodeHeaderAndFileID"}
+var c01EntryName = map[string]string{"D": "Decode", "C": "DecodeChained", "I": "CheckIntegrity(false)", "J": "CheckIntegrity(true)", "H": "DecodeHeader", "F": "DecodeHeaderAndFileID"}
 
 // judge records the verdicts of one batch. withModel[i] says whether ms[i] is meaningful.
 func judgeBatch(r *report, tag string, cases []c01Case, is []implRes, ms []modelRes, withModel []bool) {
@@ -402,11 +402,11 @@ func judgeBatch(r *report, tag string, cases []c01Case, is []implRes, ms []model
 		r.hist("entry_" + c.Entry)
 		switch im.Class {
 		case "panic":
-			r.specFail("panic", fmt.Sprintf("%s panics on a %d-byte input (%s): %.300s", entryName[c.Entry], len(c.RS.Data), c.Origin, im.Text), c.replay())
+			r.specFail("panic", fmt.Sprintf("%s panics on a %d-byte input (%s): %.300s", c01EntryName[c.Entry], len(c.RS.Data), c.Origin, im.Text), c.replay())
 		case "hang":
-			r.specFail("hang", fmt.Sprintf("%s does not return on a %d-byte input (%s): %s", entryName[c.Entry], len(c.RS.Data), c.Origin, im.Text), c.replay())
+			r.specFail("hang", fmt.Sprintf("%s does not return on a %d-byte input (%s): %s", c01EntryName[c.Entry], len(c.RS.Data), c.Origin, im.Text), c.replay())
 		case "crash":
-			r.specFail("crash", fmt.Sprintf("%s kills the process on a %d-byte input (%s): %.300s", entryName[c.Entry], len(c.RS.Data), c.Origin, im.Text), c.replay())
+			r.specFail("crash", fmt.Sprintf("%s kills the process on a %d-byte input (%s): %.300s", c01EntryName[c.Entry], len(c.RS.Data), c.Origin, im.Text), c.replay())
 		}
 		if ms == nil || !withModel[i] {
 			continue
@@ -418,9 +418,9 @@ func judgeBatch(r *report, tag string, cases []c01Case, is []implRes, ms []model
 			// the theorem says this cannot happen; if it does the model in the driver is not the proved one
 			r.corrFail("model_not_total", fmt.Sprintf("the extracted model does not return on this input: %s", m.Text), c.replay())
 		case im.returned() && (im.errClass() != errClassOf(m.Class) || im.Pos != m.Pos):
-			r.corrFail(tag+"_outcome", fmt.Sprintf("%s: implementation %s pos=%d, model %s pos=%d (%s) on %s", entryName[c.Entry], im.Class, im.Pos, m.Class, m.Pos, m.Text, c.Origin), c.replay())
+			r.corrFail(tag+"_outcome", fmt.Sprintf("%s: implementation %s pos=%d, model %s pos=%d (%s) on %s", c01EntryName[c.Entry], im.Class, im.Pos, m.Class, m.Pos, m.Text, c.Origin), c.replay())
 		case !im.returned():
-			r.corrFail(tag+"_outcome", fmt.Sprintf("%s: implementation %s, model returns %s (%s)", entryName[c.Entry], im.Class, m.Class, c.Origin), c.replay())
+			r.corrFail(tag+"_outcome", fmt.Sprintf("%s: implementation %s, model returns %s (%s)", c01EntryName[c.Entry], im.Class, m.Class, c.Origin), c.replay())
 		}
 	}
 }
@@ -854,6 +854,22 @@ func runC01(args []string) int {
 	// ------------------------------------------------ (c)
 	var ccases []c01Case
 	var cmodel []bool
+	nStreamCases := 0
+	var streamSample *c01Case
+	flushCode := 0
+	// cases are run in batches so that the thorough tier stays within a few hundred MB
+	flush := func(force bool) {
+		if flushCode != 0 || len(ccases) == 0 || (!force && len(ccases) < 100000) {
+			return
+		}
+		if streamSample == nil {
+			c := ccases[len(ccases)/3]
+			streamSample = &c
+		}
+		nStreamCases += len(ccases)
+		flushCode = runAndJudge(r, d, "streams", ccases, cmodel, par)
+		ccases, cmodel = ccases[:0], cmodel[:0]
+	}
 	entries := []string{"D", "D", "D", "D", "D", "D", "D", "D", "C", "C", "C", "F", "F", "I", "I", "J", "H", "H"}
 	addCase := func(entry string, data []byte, origin string, fam int, withModel bool) {
 		rs := readerSpec{Data: data}
@@ -882,6 +898,7 @@ func runC01(args []string) int {
 		r.hist(fmt.Sprintf("reader_family_%d", fam))
 		ccases = append(ccases, c01Case{Entry: entry, Opts: opts, RS: rs, Origin: origin})
 		cmodel = append(cmodel, withModel && modelCanRun(data))
+		flush(false)
 	}
 	fams := []int{0, 1, 4, 6, 7, 8, 9, 2, 3, 5}
 	// generated + mutated
@@ -1059,17 +1076,18 @@ func runC01(args []string) int {
 			addCase([]string{"D", "D", "C", "I", "F"}[rg.intn(5)], md, "testdata "+name+" "+how, fam, small && (thorough || rg.intn(6) == 0))
 		}
 	}
-	if code := runAndJudge(r, d, "streams", ccases, cmodel, par); code != 0 {
-		return code
+	flush(true)
+	if flushCode != 0 {
+		return flushCode
 	}
-	r.Extra["stream_cases"] = len(ccases)
+	r.Extra["stream_cases"] = nStreamCases
 	r.Exhaustive = thorough
-	r.sample(map[string]interface{}{"validator_pairs": len(pairs), "accepted_definitions": hAcc, "accepted_definition_streams": len(bcases), "stream_cases": len(ccases)})
+	r.sample(map[string]interface{}{"validator_pairs": len(pairs), "accepted_definitions": hAcc, "accepted_definition_streams": len(bcases), "stream_cases": nStreamCases})
 	if len(bcases) > 0 {
 		r.sample(bcases[len(bcases)/2].replay())
 	}
-	if len(ccases) > 0 {
-		r.sample(ccases[len(ccases)/3].replay())
+	if streamSample != nil {
+		r.sample(streamSample.replay())
 	}
 	return r.finish()
 }
@@ -1088,7 +1106,7 @@ func safeGetField(gmn uint16, num byte) (f *fit.VerifField, ok bool) {
 func runAndJudge(r *report, d *driver, tag string, cases []c01Case, withModel []bool, par int) int {
 	t0 := time.Now()
 	is := runImpl(cases, par)
-	r.Extra[tag+"_impl_seconds"] = time.Since(t0).Seconds()
+	addSeconds(r, tag+"_impl_seconds", time.Since(t0).Seconds())
 	var sel []c01Case
 	var idx []int
 	for i := range cases {
@@ -1103,7 +1121,7 @@ func runAndJudge(r *report, d *driver, tag string, cases []c01Case, withModel []
 		fmt.Println("driver:", err)
 		return 2
 	}
-	r.Extra[tag+"_model_seconds"] = time.Since(t1).Seconds()
+	addSeconds(r, tag+"_model_seconds", time.Since(t1).Seconds())
 	full := make([]modelRes, len(cases))
 	for k, i := range idx {
 		full[i] = ms[k]
@@ -1114,6 +1132,13 @@ func runAndJudge(r *report, d *driver, tag string, cases []c01Case, withModel []
 		r.count(key, tag == "accepted" || is[i].Pos > 14)
 	}
 	return 0
+}
+
+func addSeconds(r *report, key string, v float64) {
+	if old, ok := r.Extra[key].(float64); ok {
+		v += old
+	}
+	r.Extra[key] = v
 }
 
 func validHeaderBytes(rg *rng, dsize uint32) []byte {
@@ -1316,7 +1341,7 @@ func replayC01(r *report, o runOpts) int {
 		}()
 	}
 	is := runImpl([]c01Case{c}, 1)
-	fmt.Printf("replay: %s on %d bytes: %s pos=%d %s\n", entryName[c.Entry], len(c.RS.Data), is[0].Class, is[0].Pos, is[0].Text)
+	fmt.Printf("replay: %s on %d bytes: %s pos=%d %s\n", c01EntryName[c.Entry], len(c.RS.Data), is[0].Class, is[0].Pos, is[0].Text)
 	var ms []modelRes
 	wm := []bool{false}
 	if modelCanRun(c.RS.Data) {
